@@ -130,6 +130,14 @@ class World:
                 return None
             if kind == "raise":
                 raise RuntimeError("handler failure (workload)")
+            if kind == "register":
+                # late registration: a handler that registers another decorator handler while the loop is running
+                n = len(st["late_regs"])
+                new_hid = f"late:{hspec['cmd']}#{n}"
+                st["late_regs"].append((st["incarnations"], st["tasks_received"], hspec["cmd"], new_hid))
+                client.handle(hspec["cmd"])(world.make_handler(k, new_hid, hspec["new"]))
+                world.res.probes["late_registration"] += 1
+                return None
             if kind == "setsleep":
                 client.sleeptime = hspec["sleeptime"]
                 client.jitter = hspec["jitter"]
@@ -156,9 +164,11 @@ class World:
         st = self.clients.setdefault(k, {"produced": [], "sent_counters": [], "dispatch": [], "tasks_received": 0,
                                          "received": [], "sleeps": [], "incarnations": 0, "crashes": [], "ids": [],
                                          "keys": [], "band": None, "obj": None, "outgoing": None, "actor": None,
-                                         "metadata_snapshot": None, "run_error": None, "rejected": None, "alive_from": None})
+                                         "metadata_snapshot": None, "run_error": None, "rejected": None, "alive_from": None,
+                                         "late_regs": []})
         st["incarnations"] += 1
         st["metadata_snapshot"] = None
+        # a new client object starts from the static registrations: late registrations are tagged with the incarnation
         client = self.make_client(k, spec)
         st["obj"] = client
         run = dict(spec["run"])
@@ -181,8 +191,10 @@ class World:
     def on_sleep(self, actor: Actor, seconds: float):
         k = actor.data.get("client")
         st = self.clients[k]
-        c = st["obj"]
-        band = st["band"] or (c.sleeptime, c.jitter)
+        # the band comes from what was REQUESTED (plan: run() overrides, else the configuration; later a setsleep handler),
+        # never from the client's own attributes
+        spec = next(s_ for s_ in self.plan["clients"] if s_["k"] == k)
+        band = st["band"] or (spec["run"].get("sleeptime", self.cfg["sleeptime"]), spec["run"].get("jitter", self.cfg["jitter"]))
         st["sleeps"].append((self.kernel.now, seconds, band))
         self.res.log.log("sleep", k, round(seconds * 1000, 3))
         sleeptime, jitter = band
@@ -206,6 +218,7 @@ class World:
         st["tasks_received"] += 1
         got = (int(task.epoch), int(task.command), bytes(task.data))
         st["received"].append(got)
+        st.setdefault("received_inc", []).append(st["incarnations"])
         self.res.log.log("task", k, got[1], got[2])
         if lr is None or lr.get("task") is None:
             prop = "C05" if lr and lr.get("corrupted") else "C07"
@@ -460,6 +473,20 @@ class World:
                 d = hashlib.sha256(c.aes_rand).digest()
                 if (c.aes_key, c.hmac_key) != (d[:16], d[16:]):
                     self.violate("C19", "client_key_split", "client aes/hmac keys are not the halves of SHA-256(aes_rand)")
+            # the same client OBJECT run again with another id must use that id's keys everywhere
+            c = HttpBeaconClient()
+            c.logger = _NullLogger()
+            try:
+                other_id = (req + 2) % (2 ** 31)
+                c.run(self.bconfig, dry_run=True, beacon_id=other_id)
+                c.run(self.bconfig, dry_run=True, beacon_id=req)
+                k_ = c.c2http.beacon_keys
+                if bytes(c.aes_rand) not in seen or (k_.aes_key, k_.hmac_key) != (c.aes_key, c.hmac_key) \
+                        or bytes(c.metadata.aes_rand) != bytes(c.aes_rand):
+                    self.violate("C19", "stale_keys_on_rerun_of_client_object",
+                                 f"client object run first with id {other_id} then with {req}: packet keys/aes_rand are not those of id {req}")
+            except Exception as e:  # noqa: BLE001
+                self.violate("C19", "dry_run_raised", type(e).__name__, f"second run() of one client object raised {e!r}")
             if len(seen) > 1:
                 self.violate("C19", "session_keys_depend_on_options",
                              f"beacon id {req}: {len(seen)} different aes_rand values across the session and dry runs with other options "
@@ -523,7 +550,7 @@ class World:
         from dissect.cobaltstrike.c_c2 import BeaconCallback, CallbackPacket
         kk = op["client"]
         st = self.clients.get(kk)
-        if st is None or not st["keys"] or not hasattr(st["obj"], "c2http") or st["actor"].done:
+        if st is None or not st["keys"] or getattr(st["obj"], "c2http", None) is None or st["actor"].done:
             return
         c = st["obj"]
         cbs = [(cb, unhx(data)) for cb, data in op["callbacks"]]
@@ -673,6 +700,9 @@ class World:
                 by_task.setdefault(tno, []).append(hid)
             for i, (epoch, cmd, data) in enumerate(st["received"], start=1):
                 want = list(specific.get(cmd, []))
+                # late registrations made while handling an EARLIER task of this incarnation apply
+                inc_i = st["received_inc"][i - 1]
+                want += [hid for (inc, tno, c_, hid) in st["late_regs"] if c_ == cmd and inc == inc_i and tno < i]
                 nm = names.get(cmd)
                 if nm in methods:
                     want.append(f"method:{nm}")
